@@ -8,11 +8,32 @@ from harness import coqterm as ct, gen, semoracle
 ID = 'C13'
 TRANSLATORS = []
 PROPERTY_FILE = 'Properties/C13.v'
-THEOREMS = []
+THEOREMS = ['C13_mismatched_shapes_rejected', 'C13_ok_implies_equal_shapes', 'C13_miter_correct',
+            'C13_miter_true_iff_differ', 'C13_miter_total_default_names', 'C13_miter_total',
+            'C13_default_names_no_clash', 'C13_example']
 PARTIAL = {}
-LEVEL_TEXT = 'pending'
-LEVEL_NOTE = 'pending'
-TECHNIQUE = 'pending'
+LEVEL_TEXT = ('proved for the model of build_miter (the composition add_circuit + two left connections + pairwise xor + '
+              'OR/IFF of the modelled operations), for every normal return on well formed operands with non-empty block '
+              'names: the miter is well formed, its inputs are the left circuit\'s inputs under the block prefix in '
+              'order, its only output is big_or; for any number of outputs >= 1 (single output: the top gate is IFF) '
+              'and every total assignment of the miter inputs the output is defined and is True exactly when some pair '
+              'of corresponding outputs of the two circuits differs (left circuit read at the miter inputs, i-th input '
+              'of the right circuit = i-th input of the left one); mismatched shapes give MiterDifferentShapesError '
+              'for all arguments, and a normal return implies equal shapes; totality: with the block names of the implementation '
+              '("circuit1", "circuit2") build_miter returns normally for ALL well formed operands of equal shapes, and for '
+              'arbitrary names exactly under the stated no-clash condition. Operands are unmodified because the model '
+              'is purely functional; the implementation side of that and the tie model = code come from the exact '
+              'state correspondence and the truth-table oracle')
+LEVEL_NOTE = ('Coq kernel + vm_compute (example); hand-written model Model/Miter.v over Model/Connect.v / Circuit.v '
+              '(with the D3 repair: IFF instead of a one-operand OR), Model/Sem.v, Model/Den.v via Generated/Operators.v '
+              '(translator T1). Hypotheses: WF l, WF r, block names non-empty; for the functional statement also '
+              'arity_ok l, arity_ok r (every gate has an operand count its operator accepts; otherwise outputs may have '
+              'no value) and at least one output. Totality (C13_miter_total*) needs WF and equal shapes only; for non-default block '
+              'names the side condition MiterNoClash (Proofs/SemMiterTotal.v) lists the label / block-name clashes that '
+              'make the code raise')
+TECHNIQUE = ('Coq proof as a corollary of the C10 composition theorems (structure theorem three times, left-connection '
+             'semantics), the xor gate, existence of Boolean values on well formed arity-correct circuits, and the '
+             'n-ary OR fold; model tied to /repo by full-state correspondence and the truth-table oracle')
 TRUSTED = []
 ASSUMPTIONS = []
 HEADER = ('Require Import Cirbo.Model.Base Cirbo.Model.Gate Cirbo.Model.Circuit Cirbo.Model.History '
